@@ -102,7 +102,7 @@ def rust_rule(r, lats, sugar=False):
         hs = []
         for i, t in enumerate(args):
             lty = lats.get(rel) if i == len(args) - 1 else None
-            hs.append(rust_term(t, kinds, lty, in_expr=True))
+            hs.append(rust_term(t, kinds, lty, in_expr=(t[0] != "v")))     # a bare variable goes through Convert::convert
         heads.append("%s(%s)" % (rel, ", ".join(hs)))
     if not body:
         return "%s;" % ", ".join(heads)
